@@ -27,6 +27,7 @@ Variants(L) == Uniq(FlatSeq([zi \in 1..Len(L) |-> <<L[zi], RevDeep(L[zi]), Rot(L
 
 StrsAscii == <<TS(""), TS("a"), TS("b"), TS("ab"), TS("a b"), TS(" "), TS("\""), TS("\\"), TS("a\"b\\c"),
                TS("~!@#$%^&*()_+{}|:<>?`-=[];',./"), TS("{1, 2}"), TS("<<>>"), TS("TRUE"), TS("0"), TS("\\in"), TS("(* c *)")>>
+StrsCollide == <<TS("costarring"), TS("liquid"), TS("declinate"), TS("macallums"), TS("altarage"), TS("zinke")>>
 IntsC == MapSeq(TI, <<-3, -1, 0, 1, 2, 3, 7, MinInt, MinInt + 1, MaxInt - 1, MaxInt>>)
 I123 == MapSeq(TI, <<1, 2, 3>>)
 SetsI == SetsOf(MapSeq(TI, <<-1, 1, 2, 3>>), 0, 4) \o <<SI(<<MinInt, 0>>), SI(<<MaxInt>>)>>
@@ -66,7 +67,10 @@ Classes == <<
   C("set(int)", SetsI), C("set(str)", SetsS), C("seq|fn(int)", SeqFnI), C("rec(int)", RecsI),
   C("set(set(int))", SetsSetI), C("set(seq|fn)", SetsSeqFn), C("tup(set(int))", TupsSetI), C("tup(str)", TupsStr),
   C("fn(set,int)", FnsSetKey), C("fn(seq,int)", FnsTupKey), C("rec(nested)", RecsNest), C("rec(msg)", Msgs),
-  C("set(set(set(int)))", Deep3), C("tup(tup(mixed))", DeepTup) >>
+  C("set(set(set(int)))", Deep3), C("tup(tup(mixed))", DeepTup),
+  \* unequal strings with equal 32-bit FNV-1a hashes (the library's string hash): a map that compares only
+  \* hashes, or mishandles a bucket with several keys, confuses them (added after seed C05-C)
+  C("str(colliding hashes)", StrsCollide) >>
 NC == Len(Classes)
 Off == [zc \in 1..(NC + 1) |-> IF zc = 1 THEN 0 ELSE LET S[zk \in 0..NC] == IF zk = 0 THEN 0 ELSE S[zk - 1] + Len(Classes[zk].terms) IN S[zc - 1]]
 NV == Off[NC + 1]
